@@ -15,7 +15,8 @@ Conventions of the translation:
   * a NAME that is not a local is a module-level name (`.glob`): `int`, `long`, `PY2`, `unicode_type`, `Decimal`, …;
     `<module>.<name>` for the modules the file imports (`datetime`, `sqlbuilder`, `validators`, `time`) is the dotted
     module-level name (`.glob "datetime.datetime"`);
-  * `raise C(msg, …)` is translated as `raise C` (the message is not evaluated, see Model/PyCodec.lean);
+  * `raise C(msg, …)` is translated as `raise C`, `assert c, msg` as `assert c` (the message is not evaluated, see
+    Model/PyCodec.lean);
   * `x += e` is translated as `x = x + e`; `x[-1] = v` is the only item assignment;
   * `from_python = to_python` in the class body is checked and emitted as `def <f>FromPython := <f>ToPython`.
 """
@@ -27,7 +28,7 @@ TARGET = 'PyCodec'
 CMP = {ast.Eq: '.eq', ast.NotEq: '.ne', ast.Lt: '.lt', ast.LtE: '.le', ast.Gt: '.gt', ast.GtE: '.ge',
        ast.In: '.isIn', ast.NotIn: '.notIn'}
 BIN = {ast.Add: '.add', ast.Sub: '.sub', ast.Mult: '.mul', ast.FloorDiv: '.floordiv', ast.Mod: '.mod'}
-MODULES = ('datetime', 'sqlbuilder', 'validators', 'time', 'pickle', 'compound', 'events')
+MODULES = ('datetime', 'sqlbuilder', 'validators', 'time', 'pickle', 'json', 'compound', 'events')
 
 COL = 'sqlobject/col.py'
 # (file, class, python name, lean name, alias: `from_python = to_python` expected in the class body?)
@@ -47,6 +48,15 @@ FUNCTIONS = [
     (COL, 'DecimalValidator', 'from_python', 'decFromPython', None),
     (COL, 'BinaryValidator', 'to_python', 'binToPython', None),
     (COL, 'BinaryValidator', 'from_python', 'binFromPython', None),
+    (COL, 'FloatValidator', 'to_python', 'floatToPython', 'floatFromPython'),
+    (COL, 'DecimalStringValidator', 'to_python', 'decStrToPython', None),
+    (COL, 'DecimalStringValidator', 'from_python', 'decStrFromPython', None),
+    (COL, 'PickleValidator', 'to_python', 'pickleToPython', None),
+    (COL, 'PickleValidator', 'from_python', 'pickleFromPython', None),
+    (COL, 'UuidValidator', 'to_python', 'uuidToPython', None),
+    (COL, 'UuidValidator', 'from_python', 'uuidFromPython', None),
+    (COL, 'JSONValidator', 'to_python', 'jsonToPython', None),
+    (COL, 'JSONValidator', 'from_python', 'jsonFromPython', None),
     ('sqlobject/main.py', 'SQLObject', '_SO_selectInit', 'selectInit', None),
 ]
 
@@ -55,7 +65,9 @@ CHAINS = [
     ('SOCol', 'chainCol'), ('SOStringCol', 'chainString'), ('SOUnicodeCol', 'chainUnicode'), ('SOIntCol', 'chainInt'),
     ('SOBoolCol', 'chainBool'), ('SOForeignKey', 'chainForeignKey'), ('SOEnumCol', 'chainEnum'),
     ('SODateTimeCol', 'chainDateTime'), ('SODateCol', 'chainDate'), ('SOTimeCol', 'chainTime'),
-    ('SODecimalCol', 'chainDecimal'), ('SOBLOBCol', 'chainBLOB'),
+    ('SODecimalCol', 'chainDecimal'), ('SOBLOBCol', 'chainBLOB'), ('SOFloatCol', 'chainFloat'),
+    ('SODecimalStringCol', 'chainDecimalString'), ('SOPickleCol', 'chainPickle'), ('SOUuidCol', 'chainUuid'),
+    ('SOJSONCol', 'chainJSON'),
 ]
 
 
@@ -260,7 +272,7 @@ class Fn(object):
                 if len(n.args) != 2 or n.keywords or stars:
                     m.fail('hasattr outside the fragment', n)
                 return '(.hasattr %s %s)' % (m.expr(n.args[0]), m.expr(n.args[1]))
-            if f.id in ('getattr', 'setattr') and not (m.lean == 'selectInit' and f.id == 'setattr'):
+            if f.id in ('getattr', 'setattr'):
                 m.fail('%s outside the fragment' % f.id, n)
         if isinstance(f, ast.Attribute) and isinstance(f.value, ast.Call) and isinstance(f.value.func, ast.Name) \
                 and f.value.func.id == 'super':
@@ -359,9 +371,17 @@ class Fn(object):
                     and not isinstance(c, ast.Name):
                 m.fail('raise outside the fragment', n)
             return '(.raise %s)' % lean_str(ast.unparse(c))
+        if isinstance(n, ast.Assert):
+            return '(.assert %s)' % m.expr(n.test)
         if isinstance(n, ast.Return):
             return '(.ret %s)' % (m.expr(n.value) if n.value is not None else '.none')
         if isinstance(n, ast.Expr):
+            c = n.value
+            if isinstance(c, ast.Call) and isinstance(c.func, ast.Name) and c.func.id == 'setattr' \
+                    and 'setattr' not in m.vars:
+                if len(c.args) != 3 or c.keywords or any(isinstance(a, ast.Starred) for a in c.args):
+                    m.fail('setattr outside the fragment', n)
+                return '(.setattr %s %s %s)' % tuple(m.expr(a) for a in c.args)
             return '(.expr %s)' % m.expr(n.value)
         if isinstance(n, ast.Break):
             return '.brk'
@@ -416,6 +436,8 @@ def _chain(tree, cname, seen=()):
     where = '%s.createValidators' % cname
     bs = _bases(cls)
 
+    vclass = None
+
     def sup(e):
         """`super(C, self).createValidators(...)` -> chain of the base"""
         if isinstance(e, ast.Call) and isinstance(e.func, ast.Attribute) and e.func.attr == 'createValidators' \
@@ -427,14 +449,15 @@ def _chain(tree, cname, seen=()):
         return None
 
     def lst(e):
+        nonlocal vclass
         """a list display of validator constructions / a super call / a `+` of those"""
         if isinstance(e, ast.List):
             out = []
             for x in e.elts:
                 if isinstance(x, ast.Call) and isinstance(x.func, ast.Name) and x.func.id.endswith('Validator'):
                     out.append(x.func.id)
-                elif isinstance(x, ast.Name) and x.id == 'v':
-                    out.append('<v>')
+                elif isinstance(x, ast.Name) and x.id == 'v' and vclass is not None:
+                    out.append(vclass)
                 else:
                     raise ExtractError('%s: list element %s' % (where, ast.unparse(x)))
             return out
@@ -447,6 +470,18 @@ def _chain(tree, cname, seen=()):
 
     if len(body) == 1 and isinstance(body[0], ast.Return):
         return lst(body[0].value)
+    # `if …: v = C(…) else: v = C(…)` then `return [v] + super().createValidators(…)` (SODecimalStringCol)
+    if len(body) == 2 and isinstance(body[0], ast.If) and isinstance(body[1], ast.Return):
+        classes = set()
+        for br in (body[0].body, body[0].orelse):
+            if len(br) != 1 or not (isinstance(br[0], ast.Assign) and ast.unparse(br[0].targets[0]) == 'v'
+                                    and isinstance(br[0].value, ast.Call) and isinstance(br[0].value.func, ast.Name)):
+                raise ExtractError('%s: branch outside the fragment' % where)
+            classes.add(br[0].value.func.id)
+        if len(classes) != 1:
+            raise ExtractError('%s: the branches build different validators %r' % (where, sorted(classes)))
+        vclass = classes.pop()
+        return lst(body[1].value)
     # the date/time shape: `_validators = super().createValidators()`, if-chain choosing validatorClass,
     # `_validators.insert(0, validatorClass(...))`, `return _validators`
     if len(body) >= 4 and isinstance(body[0], ast.Assign) and ast.unparse(body[0].targets[0]) == '_validators' \
